@@ -17,7 +17,7 @@ from ..paths import Frame, cached_paths, expanded_paths, feasible
 from ..skel import outcomes
 from . import cluster_units as CU
 from .c17 import map_stores, returned_map_name
-from .common import bound_args, borrow, call_name, path_must, reaching_value, short, stmt_contains
+from .common import bound_args, borrow, call_name, enclosing_loops, path_must, reaching_value, short, stmt_contains
 
 FLOORS = {'C09.R1': 2, 'C09.R2': 5, 'C09.R4': 1}
 
@@ -193,11 +193,55 @@ def r2(repo, res, canon, pc, logic, plogic):
     # provision_batch_resources takes at most `size` machines from available
     pb = repo.func('Cluster.provision_batch_resources')
     pfr = Frame(pb)
-    loops = [n for n in walk_no_nested(pb.node) if isinstance(n, ast.For)]
+    adds = [n for n in walk_no_nested(pb.node) if isinstance(n, ast.Call) and call_name(n) == '_add_idle_resource']
+    loops = [l for l in (enclosing_loops(pb, adds[0]) if adds else []) if isinstance(l, ast.For)]
     oks = False
-    if loops and isinstance(loops[0].iter, ast.Call) and call_name(loops[0].iter) == 'range':
-        hi = loops[0].iter.args[-1]
-        oks = isinstance(hi, ast.Name) and hi.id == pb.params[1]
+    if loops:
+        # how many machines: the loop runs over range(N), over [free[i] for i in range(N)] or over free[:N]
+        from ..paths import assigned_names
+        from .common import path_affine_env
+
+        def count_of(it, d=0):
+            if d > 4:
+                return None
+            if isinstance(it, ast.Name):
+                defs = assigned_names(pb).get(it.id, [])
+                if len(defs) == 1 and isinstance(defs[0], ast.Assign):
+                    return count_of(defs[0].value, d + 1)
+                return None
+            if isinstance(it, ast.Call) and call_name(it) == 'range' and it.args:
+                if len(it.args) == 1 or (len(it.args) == 2 and isinstance(it.args[0], ast.Constant) and it.args[0].value == 0):
+                    return it.args[-1]
+                return None
+            if isinstance(it, ast.Call) and call_name(it) in ('list', 'tuple') and len(it.args) == 1:
+                return count_of(it.args[0], d + 1)
+            if isinstance(it, (ast.ListComp, ast.GeneratorExp)) and len(it.generators) == 1 and not it.generators[0].ifs:
+                return count_of(it.generators[0].iter, d + 1)
+            if isinstance(it, ast.Subscript) and isinstance(it.slice, ast.Slice) and it.slice.lower is None \
+                    and it.slice.step is None and it.slice.upper is not None:
+                return it.slice.upper
+            return None
+        cnt = count_of(loops[-1].iter)
+        size_p = pb.params[1]
+        av = "len(Cluster._resources['available'])"
+        if cnt is not None:
+            oks = True
+            seen = 0
+            for p in cached_paths(pb):
+                idx = [i for i, e in enumerate(p.events) if e.kind == 'for' and e.node is loops[-1]]
+                if not idx:
+                    continue
+                seen += 1
+                efr = p.events[idx[0]].frame
+                env = path_affine_env(pc, p, efr, idx[0])
+                N = affine(pc, cnt, efr, env)
+                must = path_must(plogic, p, idx[0], depth=0)
+                if N == Affine({size_p: 1}):
+                    continue
+                if N == Affine({av: 1}) and lit_lt(av, size_p) in must:
+                    continue      # fewer free than asked for: all of them
+                oks = False
+            oks = oks and seen > 0
     (res.ok if oks else res.bad)('C09.R2', pb, loops[0] if loops else None, 'provision_batch_resources reserves `size` machines',
                                  'ok' if oks else 'the number of machines reserved is not the requested size')
 
